@@ -125,7 +125,14 @@ func runLBDist(x *X) {
 	nHist := c.Intn(6, "nhist")
 	freshPool := nHist == 0
 	for i := 0; i < nHist && !x.dead; i++ {
-		switch c.Pick([]int{3, 3, 3, 2, 3, 3}, "hist") {
+		switch c.Pick([]int{3, 3, 3, 2, 3, 3, 2}, "hist") {
+		case 6: // responses that break after their head was forwarded (ReverseProxy aborts the handler)
+			k := 1 + c.Intn(3, "aborts")
+			for j := 0; j < k && !x.dead; j++ {
+				x.Do("req", func() { h.do(reqSpec{client: "192.0.2.1", plan: &reqPlan{mode: "abort"}}) }, onErr)
+			}
+			x.Fault("backend-abort")
+			hist = append(hist, fmt.Sprintf("aborted-responses(%d)", k))
 		case 5: // traffic that leaves the running weights mid-cycle, then the heaviest member goes away
 			if len(members) <= 1 {
 				continue
